@@ -186,6 +186,56 @@ def gen_case(rng, hist_len=None, may=False, p_enum=0.0, **kw):
     return out
 
 
+def initial_active(machine, init):
+    """paths active after add_model(initial=init): init and its initial descendants"""
+    defs = {tuple(p): d for p, d in all_defs(machine)}
+    out, todo = [], [tuple(init)]
+    while todo:
+        p = todo.pop(0)
+        out.append(list(p))
+        for n in defs[p]['initial']:
+            if p + (n,) in defs:
+                todo.append(p + (n,))
+    return out
+
+
+def add_cross_region(case, rng):
+    """bias: in an initially active parallel state let two regions declare the same (global) event, the first
+    region's transition targeting a state inside the OTHER region (the second region's source has then been left or
+    re-entered when its turn comes).  Returns True when the case was changed."""
+    m = case['machine']
+    defs = {tuple(p): d for p, d in all_defs(m)}
+    act = [tuple(p) for p in initial_active(m, case['init'])]
+    pars = [p for p in act if len(defs[p]['initial']) >= 2]
+    if not pars or not m['events']:
+        return False
+    pp = rng.choice(pars)
+    regs = [pp + (n,) for n in defs[pp]['initial'] if pp + (n,) in defs]
+    if len(regs) < 2:
+        return False
+    ra, rb = rng.sample(regs, 2)
+
+    def below(r):
+        return [p for p in defs if p[:len(r)] == r]
+    la = rng.choice([p for p in act if p[:len(ra)] == ra])
+    lb = rng.choice([p for p in act if p[:len(rb)] == rb])
+    e, ts = m['events'][0]
+    leaves_a = [p for p in act if p[:len(ra)] == ra and not any(q != p and q[:len(p)] == p for q in act)]
+    leaves_b = [p for p in act if p[:len(rb)] == rb and not any(q != p and q[:len(p)] == p for q in act)]
+    la, lb = rng.choice(leaves_a), rng.choice(leaves_b)
+
+    def divergent(r, leaf):
+        # a state of region r on another branch than `leaf`: entering it leaves `leaf`
+        c = [p for p in below(r) if p[:len(leaf)] != leaf and leaf[:len(p)] != p]
+        return rng.choice(c) if c else rng.choice(below(r))
+    # whichever source is offered first, its transition leaves the other one
+    extra = [dict(src=list(la), dst=list(divergent(rb, lb)), prepare=[], conds=[], before=[], after=[]),
+             dict(src=list(lb), dst=list(divergent(ra, la)), prepare=[], conds=[], before=[], after=[])]
+    m['events'][0] = (e, extra + [t for t in ts if t['src'] not in (list(la), list(lb))])
+    case['history'] = [(k, (e if j % 2 == 0 else ev), a) for j, (k, ev, a) in enumerate(case['history'])] or [(0, e, 100)]
+    return True
+
+
 # ------------------------------------------------------------------ implementation side
 def sname(path):
     return SEP.join('s%d' % n for n in path)
